@@ -384,7 +384,8 @@ impl<'s, 'a> R<'s, 'a> {
                 self.ws(false);
                 self.out.push('=');
                 self.ws(false);
-                self.attr_value(u, false);
+                // (wide style) literal TAB / LF / CR for a space inside a namespace name
+                self.attr_value(u, self.st.empty_cdata);
             } else {
                 let (q, v) = &e.attrs[ai];
                 ai += 1;
